@@ -29,14 +29,14 @@ type ResetProcessor struct {
 	target       interface{}
 	paths        []tree.Path
 	visitedNodes map[*yaml.Node][]string
-	// resolving holds the collection nodes currently being expanded (the ancestors of the node at hand)
-	resolving map[*yaml.Node]bool
+	// resolving counts how often a collection node is currently being expanded (the ancestors of the node at hand)
+	resolving map[*yaml.Node]int
 }
 
 // UnmarshalYAML implement yaml.Unmarshaler
 func (p *ResetProcessor) UnmarshalYAML(value *yaml.Node) error {
 	p.visitedNodes = make(map[*yaml.Node][]string)
-	p.resolving = make(map[*yaml.Node]bool)
+	p.resolving = make(map[*yaml.Node]int)
 	resolved, err := p.resolveReset(value, tree.NewPath())
 	p.visitedNodes = nil
 	p.resolving = nil
@@ -63,6 +63,11 @@ func (p *ResetProcessor) resolveReset(node *yaml.Node, path tree.Path) (*yaml.No
 		if err := p.checkForCycle(node.Alias, path); err != nil {
 			return nil, err
 		}
+		// whatever the paths look like (merge keys are not part of them), an alias to a collection that
+		// is already being expanded inside itself is a node that contains itself
+		if p.resolving[node.Alias] > 1 {
+			return nil, fmt.Errorf("cycle detected: node at path %s references one of its ancestors", path.String())
+		}
 
 		return p.resolveReset(node.Alias, path)
 	}
@@ -76,8 +81,8 @@ func (p *ResetProcessor) resolveReset(node *yaml.Node, path tree.Path) (*yaml.No
 		return node, nil
 	}
 	if node.Kind == yaml.SequenceNode || node.Kind == yaml.MappingNode {
-		p.resolving[node] = true
-		defer delete(p.resolving, node)
+		p.resolving[node]++
+		defer func() { p.resolving[node]-- }()
 	}
 	switch node.Kind {
 	case yaml.SequenceNode:
@@ -164,7 +169,7 @@ func (p *ResetProcessor) checkForCycle(node *yaml.Node, path tree.Path) error {
 		// If we're visiting the exact same path, it's not a cycle, unless the node is still being
 		// expanded: `x: &a {<<: *a}` merges a node into itself (the merge key is not part of the path)
 		if pathStr == prevPath {
-			if p.resolving[node] {
+			if p.resolving[node] > 0 {
 				return fmt.Errorf("cycle detected: node at path %s references itself", pathStr)
 			}
 			continue
